@@ -2,6 +2,7 @@
 import time
 import traceback
 from fractions import Fraction
+import os
 
 import z3
 
@@ -542,7 +543,9 @@ def explore(fn, rlimit=RLIMIT, max_paths=20000, wall_s=None, on_path=None):
             if obs and ex.model is not None and len(witnesses) < 3:
                 # the solver's own model sets every unconstrained symbol to 0, which hides most float64-only differences
                 # (0 converted to another unit is 0): prefer a model of the same path with pseudo-random dyadic values
-                wm = _generic_model(ex) or ex.model
+                # (opt-in, VERIF_GENERIC_WITNESS=1: float obligations based on finite differences are fragile at generic points -
+                # kinks of piecewise interpolants, exact comparisons - so the default replays the solver's own model)
+                wm = (_generic_model(ex) if os.environ.get('VERIF_GENERIC_WITNESS') else None) or ex.model
                 witnesses.append(dict(inputs=ex.inputs_from_model(wm), observed=_eval_obs(obs, wm)))
             if on_path:
                 on_path(ex, stats)
